@@ -638,6 +638,19 @@ pub fn run_check(prop: &Property, tier: Tier, seed: u64) -> CheckResult {
             children.push((i, out, child));
         }
     }
+    // regression tier: the minimal failing inputs of repaired defects, as plain code
+    let mut regress_violations: Vec<Value> = Vec::new();
+    let mut regress_run = 0u64;
+    for (name, f) in crate::regress::cases_for(prop.id) {
+        regress_run += 1;
+        let out = run_forked(move || CaseOut { violation: f(), ..CaseOut::default() });
+        if let Some(v) = out.violation {
+            regress_violations.push(json!({
+                "property": prop.id, "part": "regress", "tier": tier.name(), "seed": seed, "regress_case": name,
+                "signature": v.signature, "clause": v.clause, "step": 0, "expected": v.expected, "observed": v.observed, "bytes": "", "case": name,
+            }));
+        }
+    }
     // custom stage runs in the parent while the workers run
     let custom = prop.custom.map(|f| f(tier, seed));
 
@@ -750,6 +763,13 @@ pub fn run_check(prop: &Property, tier: Tier, seed: u64) -> CheckResult {
             ));
         }
     }
+    for v in regress_violations.iter() {
+        let sig = v["signature"].as_str().unwrap_or("").to_string();
+        if seen_sigs.insert(sig.clone()) {
+            let path = write_replay(v);
+            confirmed.push((sig, path));
+        }
+    }
     for v in custom_violations.iter() {
         let sig = v["signature"].as_str().unwrap_or("").to_string();
         if seen_sigs.insert(sig.clone()) {
@@ -789,6 +809,7 @@ pub fn run_check(prop: &Property, tier: Tier, seed: u64) -> CheckResult {
     coverage.insert("aborted_foreign".into(), json!(merged.aborted_foreign));
     coverage.insert("known_findings_hit".into(), json!(merged.known_hits));
     coverage.insert("workers".into(), json!(workers));
+    coverage.insert("regression_cases_run".into(), json!(regress_run));
     coverage.insert("inconclusive".into(), json!(inconclusive));
     coverage.insert("missing_required_classes".into(), json!(missing));
     coverage.insert(
